@@ -1,6 +1,7 @@
 package c18
 
 import (
+	"bytes"
 	"errors"
 	"fmt"
 	"math/rand/v2"
@@ -480,6 +481,9 @@ func caseRead(r *mon.Rec, idx int, gray bool) {
 		// gray zone
 		case 14:
 			f.UDPLen = 8 + len(f.Payload) + 1 + rng.IntN(9)
+			if rng.IntN(2) == 0 { // ... with link-layer padding behind the packet
+				f.Pad = 1 + rng.IntN(40)
+			}
 		case 15:
 			f.FlagsFrag = 0x2000 | uint16(rng.UintN(100))
 		case 16:
@@ -584,6 +588,32 @@ func caseRead(r *mon.Rec, idx int, gray bool) {
 		}
 	}
 	if gray {
+		// whether such frames are delivered is not laid down; what is: a payload that is returned comes from one of the
+		// frames, in order, and lies within that frame's IP total length (never link-layer padding)
+		next := 0
+		for i, g := range gots {
+			if g.err != nil {
+				break
+			}
+			found := false
+			for j := next; j < len(frames) && !found; j++ {
+				f := frames[j]
+				if len(f) < 20 {
+					continue
+				}
+				hl, tl := int(f[0]&0xf)*4, int(f[2])<<8|int(f[3])
+				if hl < 20 || tl > len(f) || hl+8 > tl {
+					continue
+				}
+				if bytes.HasPrefix(f[hl+8:tl], g.d.Payload) && string(f[12:16]) == string(g.d.Src[:]) {
+					found, next = true, j+1
+				}
+			}
+			if !found {
+				r.Violate("C18:read-payload-outside-packet", fmt.Sprintf("datagram #%d (%d octets) is not the beginning of the UDP payload of any remaining frame within its IP total length (sequence %s)", i, len(g.d.Payload), kinds), rp)
+				return
+			}
+		}
 		r.Count("gray_sequences", 1)
 		return
 	}
